@@ -153,6 +153,9 @@ pub struct Case {
     pub ops: Vec<COp>,
     pub cnf: CnfCase,
     pub vt: VtreeCase,
+    /// when set: one model count on a manager with 21 or 22 variables (counts above 2^20; about 0.1 s each)
+    #[serde(default)]
+    pub big: Option<Vec<u8>>,
 }
 
 pub struct Abi;
@@ -842,6 +845,56 @@ unsafe fn run_case_inner(case: &Case, st: &mut Stats) -> CaseResult {
         free_wmc_params_f64(w);
         st.bump("oneshot_wrappers");
     }
+    // a model count that does not fit in 20 bits: 21 or 22 manager variables, some of them added at run time
+    if let Some(sl) = &case.big {
+        let g = |i: usize| sl.get(i).copied().unwrap_or(3) as usize;
+        let total = 21 + g(0) % 2;
+        let declared = total - g(1) % 3;
+        let bm = mk_bdd_manager_default_order(declared as u64);
+        let bn = RobddBuilder::<AllIteTable<BddPtr>>::new(VarOrder::linear_order(declared));
+        for _ in declared..total {
+            let _ = bdd_new_var(bm, true);
+            let _ = bn.new_var(true);
+        }
+        // f = (x_a & x_b) | !x_c | x_d   or   x_a ^ x_b : at least a quarter of all assignments are models
+        let (a, b, c, d) = (g(2) % total, g(3) % total, g(4) % total, g(5) % total);
+        let (cf, nf) = if g(0) % 3 == 0 {
+            let cx = bdd_ite(bm, bdd_var(bm, a as u64, true), bdd_negate(bm, bdd_var(bm, b as u64, true)), bdd_var(bm, b as u64, true));
+            (cx, bn.xor(bn.var(VarLabel::new_usize(a), true), bn.var(VarLabel::new_usize(b), true)))
+        } else {
+            let cx = bdd_or(
+                bm,
+                bdd_or(bm, bdd_and(bm, bdd_var(bm, a as u64, true), bdd_var(bm, b as u64, true)), bdd_var(bm, c as u64, false)),
+                bdd_var(bm, d as u64, true),
+            );
+            let nx = bn.or(
+                bn.or(bn.and(bn.var(VarLabel::new_usize(a), true), bn.var(VarLabel::new_usize(b), true)), bn.var(VarLabel::new_usize(c), false)),
+                bn.var(VarLabel::new_usize(d), true),
+            );
+            (cx, nx)
+        };
+        ensure!(bdd_iso(*cf, nf), "C18/wrong-function:big-manager", "the C-side diagram on the {}-variable manager differs from the native one", total);
+        let want = {
+            let mut ones = WmcParams::<FiniteField<{ rsdd::constants::primes::U64_LARGEST }>>::default();
+            for v in 0..bn.num_vars() {
+                ones.set_weight(VarLabel::new_usize(v), FiniteField::new(1), FiniteField::new(1));
+            }
+            bn.smooth(nf, bn.num_vars()).unsmoothed_wmc(&ones).value() as u64
+        };
+        let got = robdd_model_count(bm, cf);
+        ensure!(
+            got == want,
+            "C18/model-count",
+            "robdd_model_count on a manager with {} variables ({} declared, {} added at run time) = {}, the native smooth-and-count gives {}",
+            total,
+            declared,
+            total - declared,
+            got,
+            want
+        );
+        st.flag("model_count_above_2^20", want > (1 << 20));
+        free_bdd_manager(bm);
+    }
     rsdd::verif_hooks::set_unique_table_capacity(None);
     if binops >= 1 && counts >= 1 {
         st.mark_nontrivial();
@@ -856,7 +909,7 @@ fn selv() -> impl Strategy<Value = Vec<u8>> {
 impl SubCheckT for Abi {
     type Case = Case;
     const NAME: &'static str = "c_api";
-    const RULE: &'static str = "histories of <=40 C-API calls on one manager (mk_bdd_manager_default_order or robdd_builder_all_table over var_order_new / var_order_linear): bdd_var, bdd_true/false, bdd_negate/and/or/ite/compose, bdd_new_var, bdd_new_label, interleaved with bdd_eq, bdd_count_nodes, robdd_model_count, bdd_wmc / _complex / _poly (weights — normalised or not — set and read back through the wmc_param_* / weight_* / polynomial_* calls, one polynomial weight of up to 32 coefficients, one with independent low/high lengths 0..40, short read-back buffers), handles from bdd_low / bdd_high used as operands, bdd_to_json, print_bdd, bdd_num_recursive_calls, bdd_scratch/set_scratch/clear_scratch, in lock step with a native RobddBuilder: the truth table read through bdd_is_true/false/topvar/low/high equals the one read off the native result, bdd_eq = native eq, topvar/low/high and whole results are isomorphic to the native ones, counts equal the native values exactly, model count = native smooth-and-count over the manager's current variables (differences between native results and the oracle are recorded only: they are other properties' concern); then the one-shot wrappers cnf_new/literal_new, cnf_from_dimacs, cnf_min_fill_order, dtree_from_cnf, vtree_from_dtree, robdd_builder_compile_cnf, sdd_builder_new/compile_cnf/sdd_wmc, ddnnf_builder_new/compile_cnf_topdown against their native counterparts. Non-trivial: >=1 binary/ternary op and >=1 count query";
+    const RULE: &'static str = "histories of <=40 C-API calls on one manager (mk_bdd_manager_default_order or robdd_builder_all_table over var_order_new / var_order_linear): bdd_var, bdd_true/false, bdd_negate/and/or/ite/compose, bdd_new_var, bdd_new_label, interleaved with bdd_eq, bdd_count_nodes, robdd_model_count, bdd_wmc / _complex / _poly (weights — normalised or not — set and read back through the wmc_param_* / weight_* / polynomial_* calls, one polynomial weight of up to 32 coefficients, one with independent low/high lengths 0..40, short read-back buffers), handles from bdd_low / bdd_high used as operands, bdd_to_json, print_bdd, bdd_num_recursive_calls, bdd_scratch/set_scratch/clear_scratch, in lock step with a native RobddBuilder: the truth table read through bdd_is_true/false/topvar/low/high equals the one read off the native result, bdd_eq = native eq, topvar/low/high and whole results are isomorphic to the native ones, counts equal the native values exactly, model count = native smooth-and-count over the manager's current variables (differences between native results and the oracle are recorded only: they are other properties' concern); then the one-shot wrappers cnf_new/literal_new, cnf_from_dimacs, cnf_min_fill_order, dtree_from_cnf, vtree_from_dtree, robdd_builder_compile_cnf, sdd_builder_new/compile_cnf/sdd_wmc, ddnnf_builder_new/compile_cnf_topdown against their native counterparts. In about 1 % of the cases one more model count is taken on a manager with 21 or 22 variables (counts above 2^20). Non-trivial: >=1 binary/ternary op and >=1 count query";
     fn cases(tier: Tier) -> u32 {
         tier.pick(5000, 60_000)
     }
@@ -889,13 +942,15 @@ impl SubCheckT for Abi {
             proptest::collection::vec(op, 0..=40),
             sat_cnf_strategy(),
             vtree_case_strategy(6, false),
+            proptest::option::weighted(0.012, proptest::collection::vec(any::<u8>(), 6)),
         )
-            .prop_map(|(n0, order_keys, ops, cnf, vt)| Case {
+            .prop_map(|(n0, order_keys, ops, cnf, vt, big)| Case {
                 n0,
                 order_keys,
                 ops,
                 cnf,
                 vt,
+                big,
             })
             .boxed()
     }
